@@ -22,9 +22,12 @@ const (
 	OK          Outcome = iota // forward the call, return its result
 	RequestLost                // do not forward, return ErrInjected
 	ReplyLost                  // forward, drop the result, return ErrInjected
+	Applied                    // forward the call now and park its REPLY: the worker shows a pending "reply:<op>" until it is released again (OK: deliver the result, ReplyLost: ErrInjected)
 )
 
-func (o Outcome) String() string { return [...]string{"ok", "request-lost", "reply-lost"}[o] }
+func (o Outcome) String() string {
+	return [...]string{"ok", "request-lost", "reply-lost", "applied-reply-parked"}[o]
+}
 
 // ErrInjected is the transient storage error injected by the harness.
 var ErrInjected = errors.New("injected storage failure")
@@ -154,6 +157,13 @@ func (g *Storage) Create(ctx context.Context, r kvs.Record) (string, error) {
 		_, err := g.Inner.Create(ctx, r)
 		g.observe("create", r.Key, err)
 		return "", ErrInjected
+	case Applied:
+		v, err := g.Inner.Create(ctx, r)
+		g.observe("create", r.Key, err)
+		if g.enter("reply:create", r.Key) != OK {
+			return "", ErrInjected
+		}
+		return v, err
 	}
 	v, err := g.Inner.Create(ctx, r)
 	g.observe("create", r.Key, err)
@@ -171,6 +181,13 @@ func (g *Storage) Delete(ctx context.Context, key string) error {
 		err := g.Inner.Delete(ctx, key)
 		g.observe("delete", key, err)
 		return ErrInjected
+	case Applied:
+		err := g.Inner.Delete(ctx, key)
+		g.observe("delete", key, err)
+		if g.enter("reply:delete", key) != OK {
+			return ErrInjected
+		}
+		return err
 	}
 	err := g.Inner.Delete(ctx, key)
 	g.observe("delete", key, err)
